@@ -264,7 +264,7 @@ class GSeq(GhostIterable):
                     L = int(c.concrete.get(f"len({self.name})", 1))
                 self._length = L
             return self._length
-        if self.kind in ("reversed", "copy", "shallow"):
+        if self.kind in ("reversed", "copy", "shallow", "sorted"):
             return self.src.length()
         if self.kind == "concat":
             return self.src.length() + self.src2.length()
@@ -348,7 +348,7 @@ class GSeq(GhostIterable):
         k = self.kind
         if k == "atom":
             return self.elem
-        if k in ("reversed", "repeat", "shallow"):
+        if k in ("reversed", "repeat", "shallow", "sorted"):
             return self.src._element()
         if k == "copy":
             import copy as _c
@@ -940,6 +940,13 @@ class Interp:
                     return (a | b) if isinstance(a, SBool) else (b | a)
             if name == "mod" and isinstance(a, str):
                 return a % b
+            if name == "pow" and have_ctx() and current().symbolic and isinstance(a, int) and not isinstance(a, bool) and a >= 0 and isinstance(b, float) \
+                    and b > 0 and abs(b * 2 - round(b * 2)) < 1e-12 and round(b * 2) % 2 == 1:
+                # a ** (k + 1/2) for integers a, k in a symbolic run: kept exact as a**k * sqrt(a) (floats as reals: 2**(n/2) is the real number, not its 53-bit rounding)
+                try:
+                    return Poly.const(a) ** int(b - 0.5) * (Poly.const(a) ** 0.5)
+                except Unsupported:
+                    pass
             if isinstance(a, (float, int, complex, np.generic)) and isinstance(b, Poly) and not isinstance(a, (bool, np.bool_)):
                 a = Poly.const(a.item() if isinstance(a, np.generic) else a)
             if isinstance(a, list) and name == "mul" and isinstance(b, Poly):
@@ -1976,6 +1983,8 @@ def _m_maxmin(interp, f, args, kw):
 
 @model(sorted, doc="sorted: comparisons of symbolic keys fork; key= functions are interpreted; stable insertion sort on symbolic keys")
 def _m_sorted(interp, f, args, kw):
+    if isinstance(args[0], GSeq):
+        return GSeq("sorted", src=args[0])       # a permutation of the source: same generic element, same length (the order itself is not described)
     seq = list(interp.iterate(args[0]))
     key = kw.get("key")
     rev = kw.get("reverse", False)
@@ -2035,6 +2044,31 @@ def _m_map(interp, f, args, kw):
 def _m_filter(interp, f, args, kw):
     fn = args[0]
     return iter([x for x in interp.iterate(args[1]) if truth(interp.call_value(fn, [x], {}) if fn is not None else x)])
+
+
+class GhostItems:
+    """dict(pairs) / OrderedDict(pairs) for a ghost sequence of (key, value) pairs: a mapping of unknown size whose only supported use is .items() / .keys() / .values()"""
+
+    def __init__(self, seq):
+        self.seq = seq
+
+    def items(self):
+        return self.seq
+
+    def __getattr__(self, a):
+        if a.startswith("__"):
+            raise AttributeError(a)
+        raise ShapeChanged(f"operation .{a} on a mapping built from a ghost sequence")
+
+
+import collections as _collections
+
+
+@model(_collections.OrderedDict, dict, doc="OrderedDict(pairs) / dict(pairs) of a ghost sequence of pairs: opaque mapping with .items()")
+def _m_odict(interp, f, args, kw):
+    if len(args) == 1 and isinstance(args[0], GSeq):
+        return GhostItems(args[0])
+    return f(*args, **kw)
 
 
 @model(list, tuple, set, frozenset, doc="container constructors iterate through interpreted __iter__")
